@@ -272,9 +272,10 @@ def validate_trace(ctx, module, trace_path, shards=None, timeout=900, cfg=None, 
             if r.ok and consumed == len(flat):
                 acc += len(part)
                 break
-            if r.depth == 0 and r.error is not None and "ostcondition" not in (r.error or "") \
-                    and "nvariant" not in (r.error or "") and r.distinct == 0:
-                raise MachineryFault("TLC failed on %s: %s\n%s" % (module, r.error, r.out[-1500:]))
+            if r.error is not None and "ostcondition" not in r.error and "nvariant" not in r.error:
+                # an evaluation error (overflow, type mismatch, missing field ...) is a fault of the
+                # specification or of the trace format - never a verdict about the code
+                raise MachineryFault("TLC failed on %s: %s\n%s" % (module, r.error, r.out[-2500:]))
             # first unconsumed record (an invariant violation is reported at the state after
             # the offending step, so the offending record is the last consumed one)
             idx = consumed
@@ -323,6 +324,7 @@ class Ctx:
         self.tlc_runs = []
         self.violations = []      # (key, what, replay_path)
         self.known_hits = []
+        self.unreproduced = []    # deviations seen once that did not show again on re-execution
         self.notes = []
         self.extra = {}
         self.exhaustive = False
@@ -377,6 +379,11 @@ class Ctx:
             json.dump(replay, f, indent=1)
         self.violations.append((key, what, path))
 
+    def unreproducible(self, what):
+        """A deviation that did not reproduce: never a violation; exit 2 unless a confirmed one exists."""
+        log("deviation not reproduced on re-execution:", what[:400])
+        self.unreproduced.append(what[:400])
+
     def finish(self, level="model_checking"):
         wall = time.time() - self.t0
         cov = {
@@ -386,7 +393,7 @@ class Ctx:
             "rule": self.rule, "samples": self.samples or ["(none)"],
             "exhaustive": self.exhaustive, "trusted_base": self.trusted,
             "tlc_runs": self.tlc_runs[:40], "tlc_run_count": len(self.tlc_runs),
-            "notes": self.notes,
+            "notes": self.notes, "unreproduced": self.unreproduced,
         }
         cov.update(self.extra)
         ev = {"property_id": self.prop, "tier": self.tier, "seed": self.seed, "level": level,
@@ -403,7 +410,12 @@ class Ctx:
         log("%s %s: states=%d transitions=%d traces=%d evaluations=%d distinct=%d wall=%.1fs violations=%d"
             % (self.prop, self.tier, self.states, self.transitions, self.traces, self.evaluations,
                self.distinct, wall, len(self.violations)))
-        return 1 if self.violations else 0
+        if self.violations:
+            return 1
+        if self.unreproduced:
+            log("MACHINERY FAULT (exit 2): %d deviation(s) could not be reproduced" % len(self.unreproduced))
+            return 2
+        return 0
 
 
 def main_wrapper(fn):
